@@ -1,0 +1,137 @@
+//go:build verif
+
+// Copyright (c) 2026 Tigera, Inc. All rights reserved.
+//
+// Licensed under the Apache License, Version 2.0 (the "License");
+// you may not use this file except in compliance with the License.
+// You may obtain a copy of the License at
+//
+//     http://www.apache.org/licenses/LICENSE-2.0
+//
+// Unless required by applicable law or agreed to in writing, software
+// distributed under the License is distributed on an "AS IS" BASIS,
+// WITHOUT WARRANTIES OR CONDITIONS OF ANY KIND, either express or implied.
+// See the License for the specific language governing permissions and
+// limitations under the License.
+
+// This file only exists in builds with the "verif" tag.  It exports the few
+// unexported seams of the IPAM garbage collector that an external simulation
+// harness needs: the syncer callbacks, the test-only pause mechanism, and the
+// bookkeeping invariant that ipam_test.go expresses as gomega assertions
+// (assertConsistentState), re-expressed as an error.
+
+package node
+
+import (
+	"fmt"
+	"sort"
+
+	bapi "github.com/projectcalico/calico/libcalico-go/lib/backend/api"
+)
+
+// OnUpdatesForSim feeds syncer updates to the controller exactly as the
+// DataFeed would (through the unexported onUpdate callback).
+func (c *IPAMController) OnUpdatesForSim(updates []bapi.Update) {
+	for _, u := range updates {
+		c.onUpdate(u)
+	}
+}
+
+// OnStatusForSim feeds a syncer status change to the controller.
+func (c *IPAMController) OnStatusForSim(s bapi.SyncStatus) {
+	c.onStatusUpdate(s)
+}
+
+// PendingSyncerUpdatesForSim reports how many syncer items (updates and status
+// changes) have been handed to the controller but not yet taken off its queue
+// by the main loop.
+func (c *IPAMController) PendingSyncerUpdatesForSim() int {
+	return len(c.syncerUpdates)
+}
+
+// PauseForSim parks the controller's main loop in its select (the same
+// mechanism the unit tests use) until the returned function is called.
+func (c *IPAMController) PauseForSim() func() {
+	return c.pause()
+}
+
+// ConsistencyProblemsForSim evaluates the relations between the controller's
+// in-memory maps that ipam_test.go's assertConsistentState asserts.  The last
+// relation of that helper ("every node that has allocations is present in
+// blocksByNode") is reported separately, as the list of offending nodes, so a
+// caller can tell it apart from the map cross-checks.  The caller must hold the
+// main loop paused (PauseForSim) or otherwise guarantee that it is not running.
+func (c *IPAMController) ConsistencyProblemsForSim() (problems []string, nodesWithoutBlocks []string) {
+	bad := func(format string, a ...any) { problems = append(problems, fmt.Sprintf(format, a...)) }
+
+	// Make sure that allBlocks contains all of the blocks.
+	for cidr := range c.emptyBlocks {
+		if _, ok := c.allBlocks[cidr]; !ok {
+			bad("Block %s not present in allBlocks, but is present in emptyBlocks", cidr)
+		}
+	}
+	for _, blocks := range c.blocksByNode {
+		for cidr := range blocks {
+			if _, ok := c.allBlocks[cidr]; !ok {
+				bad("Block %s not present in allBlocks, but is present in blocksByNode", cidr)
+			}
+		}
+	}
+	for cidr := range c.allocationsByBlock {
+		if _, ok := c.allBlocks[cidr]; !ok {
+			bad("Block %s not present in allBlocks, but is present in allocationsByBlock", cidr)
+		}
+	}
+	for cidr := range c.coldBlocks {
+		if _, ok := c.allBlocks[cidr]; !ok {
+			bad("Block %s not present in allBlocks, but is present in coldBlocks", cidr)
+		}
+	}
+
+	// Make sure blocksByNode and nodesByBlock are consistent.
+	for n, blocks := range c.blocksByNode {
+		for cidr := range blocks {
+			if c.nodesByBlock[cidr] != n {
+				bad("Block %s on wrong node: blocksByNode says %q, nodesByBlock says %q", cidr, n, c.nodesByBlock[cidr])
+			}
+		}
+	}
+	for cidr, n := range c.nodesByBlock {
+		if !c.blocksByNode[n][cidr] {
+			bad("Block %s (node %s) not present in blocksByNode", cidr, n)
+		}
+	}
+
+	// Make sure every allocation within the allocationState is present in the other maps.
+	for node, allocations := range c.allocationState.allocationsByNode {
+		for id, a := range allocations {
+			if c.allocationsByBlock[a.block][id] != a {
+				bad("Allocation %s not present in allocationsByBlock", id)
+			}
+		}
+		if _, ok := c.blocksByNode[node]; !ok {
+			nodesWithoutBlocks = append(nodesWithoutBlocks, node)
+		}
+	}
+	sort.Strings(problems)
+	sort.Strings(nodesWithoutBlocks)
+	return problems, nodesWithoutBlocks
+}
+
+// ConsistencyReport returns everything assertConsistentState asserts as an
+// error (nil when all of its relations hold).  Same calling rule as
+// ConsistencyProblemsForSim.
+func (c *IPAMController) ConsistencyReport() error {
+	problems, nodes := c.ConsistencyProblemsForSim()
+	for _, n := range nodes {
+		problems = append(problems, fmt.Sprintf("Node %s not present in blocksByNode", n))
+	}
+	if len(problems) == 0 {
+		return nil
+	}
+	msg := problems[0]
+	if len(problems) > 1 {
+		msg = fmt.Sprintf("%s (and %d more)", msg, len(problems)-1)
+	}
+	return fmt.Errorf("inconsistent IPAM controller state: %s", msg)
+}
